@@ -9,6 +9,7 @@ import (
 	"context"
 	"encoding/binary"
 	"fmt"
+	"io"
 	"time"
 
 	p9p "github.com/frobnitzem/go-p9p"
@@ -25,6 +26,12 @@ func main() {
 	defer r.Close()
 	r.Rule = "messages of all 27 kinds (boundary-dense fields, Twrite data up to 9000 bytes, Tread counts incl. 2^32-11..2^32-1) x msize in {24..64, frame-40..frame+40, 2^k+-1, 2^20} x live/cancelled/deadline-expired context; sweeps: every Tread count in msize-41..msize+1 and every Twrite data length in msize-53..msize-11 for 38 msizes. Non-trivial: every call; distinct by canonical text."
 	rng := prng.New(r.Seed)
+	// Overflow() reports an overflow for overflow errors only
+	for _, e := range []error{nil, context.Canceled, context.DeadlineExceeded, io.EOF, io.ErrUnexpectedEOF, fmt.Errorf("write: broken pipe"), p9p.ErrClosed, p9p.MessageRerror{Ename: "x"}} {
+		if k := p9p.Overflow(e); k != 0 {
+			r.Fail("channel.Overflow.non-overflow-error", fmt.Sprintf("Overflow(%v) = %d for an error that is not an overflow", e, k), nil, nil)
+		}
+	}
 	sweeps(r, rng)
 	per := r.N(10, 250)
 	for _, t := range wiregen.AllTypes {
